@@ -75,8 +75,8 @@ OverlapAdmissible(meas, t, n, m, v) ==
 MustDropBySize(meas, t, n, m) ==
   LET p == t[1]  q == t[2]  lo == Min2(n, m)  hi == Max2(n, m)  c == 10000 * p - q IN
   IF c <= 0 \/ hi = 0 THEN FALSE
-  ELSE CASE meas = "JACCARD" -> lo * 10000 * q < c * hi
-         [] meas = "DICE"    -> 2 * lo * 10000 * q < c * (n + m)
+  ELSE CASE meas = "JACCARD" -> BigCmp(BigProd(<<lo, 10000, q>>), BigProd(<<c, hi>>)) < 0
+         [] meas = "DICE"    -> BigCmp(BigProd(<<2, lo, 10000, q>>), BigProd(<<c, n + m>>)) < 0
          [] meas = "COSINE"  -> (* sqrt(lo/hi) < c/(10^4 q)  <=>  lo (10^4 q)^2 < c^2 hi *)
               BigCmp(BigProd(<<lo, 10000, 10000, q, q>>), BigProd(<<c, c, hi>>)) < 0
          [] OTHER -> FALSE
